@@ -51,8 +51,13 @@ def gen_case(rnd, tier: str, i: Any) -> Dict[str, Any]:
     first_step = gen_sim.pick_first_step(rnd)
     n_steps = rnd.choice([0, 1, 2, 3])
     files = {}
+    ragged = n_ranks > 1 and n_steps >= 2 and rnd.random() < 0.3     # ranks that recorded different (non-empty) subsets of the steps
     for r in range(n_ranks):
-        p = gen_sim.random_params(rnd, tier, rank=r, first_step=first_step, n_steps=n_steps)
+        fs, ns = first_step, n_steps
+        if ragged and r > 0:
+            ns = rnd.randint(1, n_steps)
+            fs = first_step + rnd.randint(0, n_steps - ns)
+        p = gen_sim.random_params(rnd, tier, rank=r, first_step=fs, n_steps=ns)
         tr = gen_sim.gen_trace(rnd, **p)
         gen_sim.drop_events(rnd, tr, p_launch=rnd.choice([0, 0, 0.15]), p_kernel=rnd.choice([0, 0, 0.15]))
         files[f"rank{r}.json"] = tr
